@@ -716,7 +716,8 @@ pub fn run(cx: &mut Ctx) {
         let rc = gen_round_case(&mut r, gen_max);
         check_round(cx, &rel, &rc);
         if i % 3 == 0 {
-            let s = gen_moderate_span(&mut r, gen_max);
+            // moderate spans, and (every 4th) spans up to the limits of their units: totals beyond i64 nanoseconds
+            let s = if i % 12 == 0 { gen::gen_span(&mut r, &gen::ALL_UNITS[..=gen_max.min(9)], false) } else { gen_moderate_span(&mut r, gen_max) };
             check_total(cx, &rel, &s, r.below(gen_max as u64 + 1) as usize);
             let b = gen_moderate_span(&mut r, gen_max);
             check_compare_add(cx, &rel, &s, &b);
